@@ -41,13 +41,25 @@ def worker(version, args):
             p = os.path.join(d0, stem + ".aoe2scenario")      # stage the input under its embedded name: output stem = input stem
             shutil.copy(src, p)
             inputs.append(("shipped-default", p, False, {}))
+        # a small variant of the base (map 4x4) keeps the many load/save cycles below fast
+        with cc.quiet():
+            s0 = AoE2DEScenario.from_file(base)
+            s0.map_manager.map_size = 4
+            sd = os.path.join(tmp, "small"); os.makedirs(sd)
+            small = os.path.join(sd, "base.aoe2scenario")
+            s0.write_to_file(small)
+            del s0
+        inputs.append(("base-small", small, False, {}))
         # corpus: a library-written file with USED effect strings (message / sound_name) - defect F13 lives here
         with cc.quiet():
-            scn = AoE2DEScenario.from_file(base)
-            scn.map_manager.map_size = 3
+            scn = AoE2DEScenario.from_file(small)
             t = scn.trigger_manager.add_trigger("strings")
             t.new_effect.send_chat(source_player=1, message="hello")
             t.new_effect.play_sound(source_player=1, sound_name="horn")
+            if scn.sections["Triggers"].trigger_version >= 2.5:      # 16-bit layout: an amount with its top bit set
+                t.new_effect.change_object_attack(armour_attack_class=4, armour_attack_quantity=0xFFFB)
+            else:
+                t.new_effect.change_object_attack(armour_attack_class=4, armour_attack_quantity=0xFB)
             d = os.path.join(tmp, "in_probe"); os.makedirs(d)
             p = os.path.join(d, "base.aoe2scenario")
             st, e = common.outcome(scn.write_to_file, p)
@@ -60,7 +72,7 @@ def worker(version, args):
             hseed = f"C01:{args['seed']}:{version}:{h}"
             hr = random.Random(hseed)
             with cc.quiet():
-                scn = AoE2DEScenario.from_file(base)
+                scn = AoE2DEScenario.from_file(small)
                 scn.map_manager.map_size = hr.randint(2, 6)
                 H = histories.History(scn, hr, version)
                 for _ in range(hr.randint(4, args["nops"])):
@@ -74,6 +86,40 @@ def worker(version, args):
                        for a in ("message", "sound_name") if _used_string(ef, a))
             inputs.append(("history", p, True, {"history_seed": hseed, "ops": H.ops[-30:], "used_effect_strings": nstr}))
             del scn
+        # (e) section-edited inputs: player attributes written DIRECTLY into the file fields that represent them (primary and
+        #     duplicate fields together, harness/layout.py), values at 0 / boundaries, saved without the managers - these files
+        #     are in normal form but were not shaped by the managers' own commit
+        from harness import layout
+        for e_i in range(args["nedit"]):
+            er = random.Random(f"C01e:{args['seed']}:{version}:{e_i}")
+            with cc.quiet():
+                scn = AoE2DEScenario.from_file(small)
+            edits = []
+            for _ in range(er.randint(1, 6)):
+                attr = er.choice([a for a in layout.PLAYER_FIELDS if a not in ("active", "tribe_name")])
+                pl = er.randint(0, 8)
+                ents = layout.player_entries(attr, pl, version)
+                prim = layout.PLAYER_FIELDS[attr][0]
+                if not ents or layout.pos(prim[3], pl) is None:
+                    continue
+                kind = prim[4]
+                v = er.choice([0, 1]) if kind == "b" else er.choice([0, 0, 1, 7, 200, er.randint(0, 1000)])
+                if attr in ("civilization", "architecture_set"):
+                    v = er.choice([1, 2, 40])
+                if attr == "color":
+                    v = er.randint(0, 7)
+                if attr == "starting_age":
+                    v = er.choice([0, 2, 6])
+                for sec, fld, i, sf, k in ents:
+                    layout.set_field(scn, sec, fld, i, sf, layout.stored(k, v))
+                edits.append([attr, pl, v])
+            d = os.path.join(tmp, f"in_e{e_i}"); os.makedirs(d)
+            p = os.path.join(d, "base.aoe2scenario")
+            with cc.quiet():
+                st, e = common.outcome(scn.write_to_file, p, skip_reconstruction=True, skip_validation=True)
+            del scn
+            if st == "ok" and edits:
+                inputs.append(("section-edited", p, True, {"edits": edits}))
         # (d) model-encoded random trees (skip mode only)
         gen_inputs = []
         if drv:
@@ -181,7 +227,7 @@ def _write_sections_only(scn, path):
 def run(ctx):
     R = common.Result(RULE)
     vs = bases.versions()
-    args = {"seed": ctx.seed, "driver": ctx.driver_path, "nhist": ctx.budget(5, 40), "nops": 14 if ctx.quick else 30, "ngen": ctx.budget(6, 40)}
+    args = {"seed": ctx.seed, "driver": ctx.driver_path, "nhist": ctx.budget(5, 40), "nops": 14 if ctx.quick else 30, "ngen": ctx.budget(6, 40), "nedit": ctx.budget(6, 60)}
     per = vworker.run_versions("h_c01", "worker", vs, args)
     cc.merge_results(R, per, "C01")
     R.extra["versions"] = vs
